@@ -65,3 +65,11 @@ func TestValidity(t *testing.T) {
 		}
 	}
 }
+
+func TestPaths(t *testing.T) {
+	p := Paths()
+	if len(p) < 150 {
+		t.Errorf("only %d attribute paths", len(p))
+	}
+	t.Logf("%d attribute paths, e.g. %v", len(p), p[:10])
+}
